@@ -23,7 +23,7 @@ from ..structure import ancestors, catches, enclosing, enclosing_loops, enclosin
 RAISING_VFS = {"stat", "open", "listdir", "copyto", "unlink"}
 
 
-def may_raise(ctx, eff, func, concrete, call, target, _memo={}):
+def may_raise(ctx, eff, func, concrete, call, target, _memo={}, raw=False):
     """Exception classes ('FileNotFound', 'OSError') a call may raise, through the call graph."""
     out = set()
     gh = ctx.func("handlers.HandlerMultiplexer.getHandler")
@@ -38,25 +38,26 @@ def may_raise(ctx, eff, func, concrete, call, target, _memo={}):
 
     def classify(c, t, f, C, seen, top=False):
         if t.kind == "repo" and gh is not None and gh in t.funcs:
-            out.add("FileNotFound")
-            out.add("OSError")
+            for exc in ("FileNotFound", "OSError"):
+                if top or raw or not any(catches(h, exc) for tr in enclosing_tries(f.node, c) for h in tr.handlers):
+                    out.add(exc)
             return
         if eff.is_vfs_call(t):
             if t.funcs[0].name in RAISING_VFS:
                 # inside a try in the callee that catches OSError?  (e.g. handleeaext)
-                if top or not any(catches(h, "OSError") for tr in enclosing_tries(f.node, c) for h in tr.handlers):
+                if top or raw or not any(catches(h, "OSError") for tr in enclosing_tries(f.node, c) for h in tr.handlers):
                     out.add("OSError")
             return
         if t.kind == "ext":
             from ..effects import direct_effects
 
             if any(e.startswith("FS_") for e in direct_effects(c, t)):
-                if top or not any(catches(h, "OSError") for tr in enclosing_tries(f.node, c) for h in tr.handlers):
+                if top or raw or not any(catches(h, "OSError") for tr in enclosing_tries(f.node, c) for h in tr.handlers):
                     out.add("OSError")
             return
         if t.kind in ("repo", "ctor") and not t.by_name:
-            guarded_fnf = (not top) and any(catches(h, "FileNotFound") for tr in enclosing_tries(f.node, c) for h in tr.handlers)
-            guarded_os = (not top) and any(catches(h, "OSError") for tr in enclosing_tries(f.node, c) for h in tr.handlers)
+            guarded_fnf = (not top) and not raw and any(catches(h, "FileNotFound") for tr in enclosing_tries(f.node, c) for h in tr.handlers)
+            guarded_os = (not top) and not raw and any(catches(h, "OSError") for tr in enclosing_tries(f.node, c) for h in tr.handlers)
             before = set(out)
             for callee in t.funcs:
                 if callee is not None:
@@ -163,6 +164,10 @@ def check(ctx, rep):
                                 continue
                         excs = may_raise(ctx, eff, m, C, call, t)
                         if not excs:
+                            if t.kind == "repo" and t.bound_cls is not None and may_raise(ctx, eff, m, C, call, t, raw=True):
+                                # what can fail for one entry is caught inside the helper the loop calls
+                                rep.ok("R12a", f"{C.name}: {m.qualname}: {norm(call)[:55]}", ctx.where(m, call), "contained inside the helper",
+                                       key=f"R12a|{C.name}|{m.qualname}|{norm(call.func)}")
                             continue
                         key = (m, id(call), C if t.bound_cls is not None else None)
                         problems = []
